@@ -655,7 +655,16 @@ def chk_native(T, v, M, rng):
                 if abs(got_f - exact) > abs(exact) * 1e-12 or (exact != 0.0) != (got_f != 0.0):
                     out.append(fail('native', T, v, 'native round trip of a REAL: %r became %r' % (exact, got_f), py=repr(py)[:100]))
     except Exception as ex:
-        if not ('kind:REAL' in features(T) and isinstance(ex, OverflowError)):
+        # a REAL beyond the float range has no native form (OverflowError is the honest answer); one inside it has
+        excused = isinstance(ex, OverflowError) and 'kind:REAL' in features(T)
+        if excused and T['k'] == 'REAL' and isinstance(v, tuple):
+            from fractions import Fraction
+            try:
+                float(Fraction(v[0]) * Fraction(v[1]) ** v[2])
+                excused = False
+            except OverflowError:
+                pass
+        if not excused:
             out.append(fail('native', T, v, 'native round trip raised %s: %s' % (type(ex).__name__, str(ex)[:150])))
     # 2. python value tree + schema == value object, for the three codecs
     trees = []
